@@ -33,6 +33,9 @@ pub trait Shape: Sized + MemSize {
     /// heap_size must equal the allocator's count (no hash containers, no
     /// leaked referents inside)
     const EXACT: bool;
+    /// contains a user-defined type whose reported heap size is not backed by
+    /// the allocator: the allocator comparison does not apply (C08 only)
+    const VIRTUAL: bool = false;
     /// nesting levels of constructors
     const LEVELS: u32;
     fn build(u: &mut Unstructured, depth: u32) -> Self;
@@ -67,6 +70,18 @@ leaf!(bool, "bool", |u| u.arbitrary().unwrap_or(false));
 leaf!(f64, "f64", |u| int(u, 0, 1000) as f64);
 leaf!(std::time::Duration, "Duration", |u| std::time::Duration::from_millis(int(u, 0, 1000) as u64));
 leaf!(RangeFull, "RangeFull", |_u| ..);
+leaf!(i8, "i8", |u| u.arbitrary().unwrap_or(0));
+leaf!(u128, "u128", |u| u.arbitrary().unwrap_or(0));
+leaf!(usize, "usize", |u| u.arbitrary().unwrap_or(0));
+leaf!(f32, "f32", |u| int(u, 0, 1000) as f32);
+leaf!(std::num::NonZeroU8, "NonZeroU8", |u| std::num::NonZeroU8::new(1 + int(u, 0, 200) as u8).unwrap());
+leaf!(std::num::NonZeroU64, "NonZeroU64", |u| std::num::NonZeroU64::new(1 + int(u, 0, 200) as u64).unwrap());
+leaf!(std::cmp::Ordering, "Ordering", |u| if flag(u) { std::cmp::Ordering::Less } else { std::cmp::Ordering::Greater });
+leaf!(std::net::Ipv4Addr, "Ipv4Addr", |u| std::net::Ipv4Addr::new(int(u, 0, 255) as u8, 0, 0, 1));
+leaf!(std::net::IpAddr, "IpAddr", |u| if flag(u) { std::net::IpAddr::V4(std::net::Ipv4Addr::new(int(u, 0, 255) as u8, 0, 0, 1)) } else { std::net::IpAddr::V6(std::net::Ipv6Addr::LOCALHOST) });
+leaf!(std::net::SocketAddr, "SocketAddr", |u| std::net::SocketAddr::new(std::net::IpAddr::V6(std::net::Ipv6Addr::LOCALHOST), int(u, 0, 6000) as u16));
+leaf!(std::marker::PhantomPinned, "PhantomPinned", |_u| std::marker::PhantomPinned);
+leaf!(std::collections::hash_map::RandomState, "RandomState", |_u| std::collections::hash_map::RandomState::new());
 
 fn text(u: &mut Unstructured, n: usize) -> String {
     (0..n).map(|_| (b'a' + (int(u, 0, 25) as u8)) as char).collect()
@@ -99,6 +114,7 @@ impl Shape for String {
 
 impl<T: Shape> Shape for Vec<T> {
     const EXACT: bool = T::EXACT;
+    const VIRTUAL: bool = T::VIRTUAL;
     const LEVELS: u32 = T::LEVELS + 1;
     fn build(u: &mut Unstructured, depth: u32) -> Self {
         let m = max_count(depth);
@@ -131,6 +147,7 @@ impl<T: Shape> Shape for Vec<T> {
 
 impl<T: Shape> Shape for Box<T> {
     const EXACT: bool = T::EXACT;
+    const VIRTUAL: bool = T::VIRTUAL;
     const LEVELS: u32 = T::LEVELS + 1;
     fn build(u: &mut Unstructured, depth: u32) -> Self { Box::new(T::build(u, depth + 1)) }
     fn ref_heap(&self) -> usize { std::mem::size_of::<T>() + (**self).ref_heap() }
@@ -140,6 +157,7 @@ impl<T: Shape> Shape for Box<T> {
 
 impl<T: Shape> Shape for Box<[T]> {
     const EXACT: bool = T::EXACT;
+    const VIRTUAL: bool = T::VIRTUAL;
     const LEVELS: u32 = T::LEVELS + 1;
     fn build(u: &mut Unstructured, depth: u32) -> Self {
         let n = int(u, 0, max_count(depth));
@@ -177,6 +195,24 @@ impl Shape for Box<Path> {
     fn ref_heap(&self) -> usize { self.as_os_str().len() }
     fn slack(&self) -> bool { false }
     fn name() -> String { "Box<Path>".into() }
+}
+
+impl Shape for Box<std::ffi::OsStr> {
+    const EXACT: bool = true;
+    const LEVELS: u32 = 1;
+    fn build(u: &mut Unstructured, depth: u32) -> Self { OsString::build(u, depth).into_boxed_os_str() }
+    fn ref_heap(&self) -> usize { self.len() }
+    fn slack(&self) -> bool { false }
+    fn name() -> String { "Box<OsStr>".into() }
+}
+
+impl<T: 'static> Shape for PhantomData<T> {
+    const EXACT: bool = true;
+    const LEVELS: u32 = 0;
+    fn build(_u: &mut Unstructured, _depth: u32) -> Self { PhantomData }
+    fn ref_heap(&self) -> usize { 0 }
+    fn slack(&self) -> bool { false }
+    fn name() -> String { "PhantomData<_>".into() }
 }
 
 impl Shape for CString {
@@ -241,6 +277,7 @@ impl Shape for PathBuf {
 
 impl<T: Shape> Shape for Option<T> {
     const EXACT: bool = T::EXACT;
+    const VIRTUAL: bool = T::VIRTUAL;
     const LEVELS: u32 = T::LEVELS + 1;
     fn build(u: &mut Unstructured, depth: u32) -> Self {
         if int(u, 0, 3) == 0 { None } else { Some(T::build(u, depth + 1)) }
@@ -252,6 +289,7 @@ impl<T: Shape> Shape for Option<T> {
 
 impl<T: Shape, E: Shape> Shape for Result<T, E> {
     const EXACT: bool = T::EXACT && E::EXACT;
+    const VIRTUAL: bool = T::VIRTUAL || E::VIRTUAL;
     const LEVELS: u32 = (if T::LEVELS > E::LEVELS { T::LEVELS } else { E::LEVELS }) + 1;
     fn build(u: &mut Unstructured, depth: u32) -> Self {
         if flag(u) { Ok(T::build(u, depth + 1)) } else { Err(E::build(u, depth + 1)) }
@@ -267,6 +305,7 @@ impl<T: Shape, E: Shape> Shape for Result<T, E> {
 
 impl<T: Shape, const N: usize> Shape for [T; N] {
     const EXACT: bool = T::EXACT;
+    const VIRTUAL: bool = T::VIRTUAL;
     const LEVELS: u32 = T::LEVELS + 1;
     fn build(u: &mut Unstructured, depth: u32) -> Self { std::array::from_fn(|_| T::build(u, depth + 1)) }
     fn ref_heap(&self) -> usize { self.iter().map(|e| e.ref_heap()).sum() }
@@ -278,6 +317,7 @@ macro_rules! tuple_shape {
     ($($t:ident),+) => {
         impl<$($t: Shape),+> Shape for ($($t,)+) {
             const EXACT: bool = true $(&& $t::EXACT)+;
+            const VIRTUAL: bool = false $(|| $t::VIRTUAL)+;
             const LEVELS: u32 = { let mut m = 0; $(if $t::LEVELS > m { m = $t::LEVELS; })+ m + 1 };
             fn build(u: &mut Unstructured, depth: u32) -> Self { ($($t::build(u, depth + 1),)+) }
             #[allow(non_snake_case)]
@@ -302,6 +342,7 @@ tuple_shape!(A, B, C, D, E, F, G, H, I, J);
 
 impl<K: Shape + Hash + Eq, V: Shape> Shape for HashMap<K, V> {
     const EXACT: bool = false;
+    const VIRTUAL: bool = K::VIRTUAL || V::VIRTUAL;
     const LEVELS: u32 = (if K::LEVELS > V::LEVELS { K::LEVELS } else { V::LEVELS }) + 1;
     fn build(u: &mut Unstructured, depth: u32) -> Self {
         let mut m: HashMap<K, V> = if flag(u) { HashMap::with_capacity(int(u, 0, 20)) } else { HashMap::new() };
@@ -326,6 +367,7 @@ impl<K: Shape + Hash + Eq, V: Shape> Shape for HashMap<K, V> {
 
 impl<T: Shape + Hash + Eq> Shape for HashSet<T> {
     const EXACT: bool = false;
+    const VIRTUAL: bool = T::VIRTUAL;
     const LEVELS: u32 = T::LEVELS + 1;
     fn build(u: &mut Unstructured, depth: u32) -> Self {
         let mut m: HashSet<T> = if flag(u) { HashSet::with_capacity(int(u, 0, 20)) } else { HashSet::new() };
@@ -348,6 +390,7 @@ impl<T: Shape + Hash + Eq> Shape for HashSet<T> {
 
 impl<T: Shape + Ord> Shape for BinaryHeap<T> {
     const EXACT: bool = T::EXACT;
+    const VIRTUAL: bool = T::VIRTUAL;
     const LEVELS: u32 = T::LEVELS + 1;
     fn build(u: &mut Unstructured, depth: u32) -> Self {
         let mut h: BinaryHeap<T> = if flag(u) { BinaryHeap::with_capacity(int(u, 0, 20)) } else { BinaryHeap::new() };
@@ -372,6 +415,7 @@ impl<T: Shape + Ord> Shape for BinaryHeap<T> {
 
 impl<T: Shape> Shape for Wrapping<T> {
     const EXACT: bool = T::EXACT;
+    const VIRTUAL: bool = T::VIRTUAL;
     const LEVELS: u32 = T::LEVELS + 1;
     fn build(u: &mut Unstructured, depth: u32) -> Self { Wrapping(T::build(u, depth + 1)) }
     fn ref_heap(&self) -> usize { self.0.ref_heap() }
@@ -381,6 +425,7 @@ impl<T: Shape> Shape for Wrapping<T> {
 
 impl<T: Shape> Shape for Range<T> {
     const EXACT: bool = T::EXACT;
+    const VIRTUAL: bool = T::VIRTUAL;
     const LEVELS: u32 = T::LEVELS + 1;
     fn build(u: &mut Unstructured, depth: u32) -> Self { T::build(u, depth + 1)..T::build(u, depth + 1) }
     fn ref_heap(&self) -> usize { self.start.ref_heap() + self.end.ref_heap() }
@@ -390,6 +435,7 @@ impl<T: Shape> Shape for Range<T> {
 
 impl<T: Shape> Shape for RangeInclusive<T> {
     const EXACT: bool = T::EXACT;
+    const VIRTUAL: bool = T::VIRTUAL;
     const LEVELS: u32 = T::LEVELS + 1;
     fn build(u: &mut Unstructured, depth: u32) -> Self { T::build(u, depth + 1)..=T::build(u, depth + 1) }
     fn ref_heap(&self) -> usize { self.start().ref_heap() + self.end().ref_heap() }
@@ -399,6 +445,7 @@ impl<T: Shape> Shape for RangeInclusive<T> {
 
 impl<T: Shape> Shape for RangeFrom<T> {
     const EXACT: bool = T::EXACT;
+    const VIRTUAL: bool = T::VIRTUAL;
     const LEVELS: u32 = T::LEVELS + 1;
     fn build(u: &mut Unstructured, depth: u32) -> Self { T::build(u, depth + 1).. }
     fn ref_heap(&self) -> usize { self.start.ref_heap() }
@@ -408,6 +455,7 @@ impl<T: Shape> Shape for RangeFrom<T> {
 
 impl<T: Shape> Shape for RangeTo<T> {
     const EXACT: bool = T::EXACT;
+    const VIRTUAL: bool = T::VIRTUAL;
     const LEVELS: u32 = T::LEVELS + 1;
     fn build(u: &mut Unstructured, depth: u32) -> Self { ..T::build(u, depth + 1) }
     fn ref_heap(&self) -> usize { self.end.ref_heap() }
@@ -417,6 +465,7 @@ impl<T: Shape> Shape for RangeTo<T> {
 
 impl<T: Shape> Shape for RangeToInclusive<T> {
     const EXACT: bool = T::EXACT;
+    const VIRTUAL: bool = T::VIRTUAL;
     const LEVELS: u32 = T::LEVELS + 1;
     fn build(u: &mut Unstructured, depth: u32) -> Self { ..=T::build(u, depth + 1) }
     fn ref_heap(&self) -> usize { self.end.ref_heap() }
@@ -426,6 +475,7 @@ impl<T: Shape> Shape for RangeToInclusive<T> {
 
 impl<T: Shape> Shape for Mutex<T> {
     const EXACT: bool = T::EXACT;
+    const VIRTUAL: bool = T::VIRTUAL;
     const LEVELS: u32 = T::LEVELS + 1;
     fn build(u: &mut Unstructured, depth: u32) -> Self { Mutex::new(T::build(u, depth + 1)) }
     fn ref_heap(&self) -> usize { self.lock().unwrap().ref_heap() }
@@ -435,6 +485,7 @@ impl<T: Shape> Shape for Mutex<T> {
 
 impl<T: Shape> Shape for RwLock<T> {
     const EXACT: bool = T::EXACT;
+    const VIRTUAL: bool = T::VIRTUAL;
     const LEVELS: u32 = T::LEVELS + 1;
     fn build(u: &mut Unstructured, depth: u32) -> Self { RwLock::new(T::build(u, depth + 1)) }
     fn ref_heap(&self) -> usize { self.read().unwrap().ref_heap() }
@@ -452,6 +503,131 @@ impl<T: Shape + 'static> Shape for &'static T {
     fn slack(&self) -> bool { false }
     fn name() -> String { format!("&{}", T::name()) }
 }
+
+impl<T: Shape + 'static> Shape for &'static mut T {
+    const EXACT: bool = false;
+    const LEVELS: u32 = 1;
+    fn build(u: &mut Unstructured, depth: u32) -> Self { Box::leak(Box::new(T::build(u, depth + 1))) }
+    fn ref_heap(&self) -> usize { 0 }
+    fn slack(&self) -> bool { false }
+    fn name() -> String { format!("&mut {}", T::name()) }
+}
+
+// ------------------------------------------------- user-defined element types
+//
+// The containers of the crate hand *their own* iterators to the bulk helpers
+// of the element type, and the element type may be anybody's. These element
+// types implement the helpers in legitimate but unusual ways (a `next` before
+// a `fold`, `len` / `count`, `peekable`, `last`), and report sizes that the
+// allocator knows nothing about (handles into arenas, no drop glue).
+
+/// No drop glue, `Copy`, reports the heap size it is told to.
+#[derive(Clone, Copy, Debug, PartialEq, Eq, Hash, PartialOrd, Ord)]
+pub struct UMock(pub u32);
+
+impl HeapSize for UMock {
+    fn heap_size(&self) -> usize { self.0 as usize }
+}
+
+/// Bulk helpers take the first element with `next` and fold the rest.
+#[derive(Debug, PartialEq, Eq, Hash, PartialOrd, Ord)]
+pub struct UHead(pub u32, pub Box<u8>);
+
+impl HeapSize for UHead {
+    fn heap_size(&self) -> usize { self.0 as usize }
+
+    fn heap_size_sum_iter<'item, Fun, Iter>(make_iter: Fun) -> usize
+    where Self: 'item, Fun: Fn() -> Iter, Iter: Iterator<Item = &'item Self> {
+        let mut it = make_iter();
+        let first = match it.next() { Some(x) => x.0 as usize, None => return 0 };
+        it.fold(first, |a, x| a + x.0 as usize)
+    }
+
+    fn heap_size_sum_exact_size_iter<'item, Fun, Iter>(make_iter: Fun) -> usize
+    where Self: 'item, Fun: Fn() -> Iter, Iter: ExactSizeIterator<Item = &'item Self> {
+        let mut it = make_iter();
+        let first = match it.next() { Some(x) => x.0 as usize, None => return 0 };
+        it.fold(first, |a, x| a + x.0 as usize)
+    }
+}
+
+/// Bulk helpers believe `len()`, cross-check it with `count()`, and walk with `nth`.
+#[derive(Debug, Clone, Copy, PartialEq, Eq, Hash, PartialOrd, Ord)]
+pub struct ULen(pub u32);
+
+impl HeapSize for ULen {
+    fn heap_size(&self) -> usize { self.0 as usize }
+
+    fn heap_size_sum_iter<'item, Fun, Iter>(make_iter: Fun) -> usize
+    where Self: 'item, Fun: Fn() -> Iter, Iter: Iterator<Item = &'item Self> {
+        let n = make_iter().count();
+        let (lo, hi) = make_iter().size_hint();
+        // an iterator of the crate that misreports its bounds shows up as a wrong sum
+        let penalty = if lo > n || hi.map(|h| h < n).unwrap_or(false) { 1 << 40 } else { 0 };
+        let mut it = make_iter();
+        let mut sum = 0usize;
+        while let Some(x) = it.nth(0) { sum += x.0 as usize; }
+        sum + penalty
+    }
+
+    fn heap_size_sum_exact_size_iter<'item, Fun, Iter>(make_iter: Fun) -> usize
+    where Self: 'item, Fun: Fn() -> Iter, Iter: ExactSizeIterator<Item = &'item Self> {
+        let n = make_iter().len();
+        let counted = make_iter().count();
+        let penalty = if n != counted { 1 << 40 } else { 0 };
+        let mut it = make_iter();
+        let mut sum = 0usize;
+        for _ in 0..n {
+            match it.next() { Some(x) => sum += x.0 as usize, None => return sum + (1 << 41) }
+        }
+        sum + penalty + if it.next().is_some() { 1 << 42 } else { 0 }
+    }
+}
+
+/// Bulk helpers peek, take the last element separately, skip and step.
+#[derive(Debug, PartialEq, Eq, Hash, PartialOrd, Ord)]
+pub struct UPeek(pub u32, pub String);
+
+impl HeapSize for UPeek {
+    fn heap_size(&self) -> usize { self.0 as usize }
+
+    fn heap_size_sum_iter<'item, Fun, Iter>(make_iter: Fun) -> usize
+    where Self: 'item, Fun: Fn() -> Iter, Iter: Iterator<Item = &'item Self> {
+        let mut it = make_iter().peekable();
+        if it.peek().is_none() { return 0; }
+        let last = make_iter().last().map(|x| x.0 as usize).unwrap_or(0);
+        let n = make_iter().count();
+        let all_but_last: usize = it.take(n - 1).map(|x| x.0 as usize).sum();
+        all_but_last + last
+    }
+
+    fn heap_size_sum_exact_size_iter<'item, Fun, Iter>(make_iter: Fun) -> usize
+    where Self: 'item, Fun: Fn() -> Iter, Iter: ExactSizeIterator<Item = &'item Self> {
+        // even and odd positions separately
+        let even: usize = make_iter().step_by(2).map(|x| x.0 as usize).sum();
+        let odd: usize = make_iter().skip(1).step_by(2).map(|x| x.0 as usize).sum();
+        even + odd
+    }
+}
+
+macro_rules! user_leaf {
+    ($t:ty, $name:expr, |$u:ident| $build:expr) => {
+        impl Shape for $t {
+            const EXACT: bool = false;
+            const VIRTUAL: bool = true;
+            const LEVELS: u32 = 1;
+            fn build($u: &mut Unstructured, _depth: u32) -> Self { $build }
+            fn ref_heap(&self) -> usize { self.0 as usize }
+            fn slack(&self) -> bool { self.0 > 0 }
+            fn name() -> String { $name.to_string() }
+        }
+    };
+}
+
+user_leaf!(UMock, "UMock", |u| UMock(int(u, 0, 1000) as u32));
+user_leaf!(UHead, "UHead", |u| UHead(int(u, 0, 1000) as u32, Box::new(0)));
+user_leaf!(ULen, "ULen", |u| ULen(int(u, 0, 1000) as u32));
+user_leaf!(UPeek, "UPeek", |u| UPeek(int(u, 0, 1000) as u32, String::new()));
 
 // --------------------------------------------------------------- checks
 
@@ -547,7 +723,7 @@ impl<T: Shape + 'static> Runner<T> {
         if T::LEVELS >= 2 && slack {
             stats.nontrivial8.push(format!("{}|value", name));
         }
-        if crate::alloc_installed() {
+        if crate::alloc_installed() && !T::VIRTUAL {
             if held < 0 || (T::EXACT && !clean) {
                 // the measurement was disturbed: never reported, only counted
                 stats.discarded += 1;
@@ -609,6 +785,23 @@ impl<T: Shape + 'static> Runner<T> {
         // chain of two sources
         check("chain", T::heap_size_sum_iter(|| elems.iter().chain(elems2.iter())), sum_heap(elems.iter().chain(elems2.iter())), "heap_size_sum_iter", stats);
         check("chain", T::value_size_sum_iter(elems.iter().chain(elems2.iter())), sum_value(elems.iter().chain(elems2.iter())), "value_size_sum_iter", stats);
+        // the same element several times (nothing says the references are distinct)
+        if let Some(first) = elems.first() {
+            let k = take + step;
+            check("repeat_n", T::heap_size_sum_iter(|| std::iter::repeat_n(first, k)), k * first.heap_size(), "heap_size_sum_iter", stats);
+            check("repeat_n", T::heap_size_sum_exact_size_iter(|| std::iter::repeat_n(first, k)), k * first.heap_size(), "heap_size_sum_exact_size_iter", stats);
+            check("repeat_n", T::value_size_sum_iter(std::iter::repeat_n(first, k)), k * first.value_size(), "value_size_sum_iter", stats);
+            check("repeat_n", T::value_size_sum_exact_size_iter(std::iter::repeat_n(first, k)), k * first.value_size(), "value_size_sum_exact_size_iter", stats);
+            check("cycle-take", T::heap_size_sum_iter(|| elems.iter().cycle().take(k + n)), sum_heap(elems.iter().cycle().take(k + n)), "heap_size_sum_iter", stats);
+            check("cycle-take", T::value_size_sum_iter(elems.iter().cycle().take(k + n)), sum_value(elems.iter().cycle().take(k + n)), "value_size_sum_iter", stats);
+        }
+        // both ends consumed before the helper sees the iterator
+        {
+            let trimmed = || { let mut it = elems.iter(); if skip % 2 == 1 { it.next(); } if take % 2 == 1 { it.next_back(); } it };
+            check("trimmed", T::heap_size_sum_iter(trimmed), sum_heap(trimmed()), "heap_size_sum_iter", stats);
+            check("trimmed", T::heap_size_sum_exact_size_iter(trimmed), sum_heap(trimmed()), "heap_size_sum_exact_size_iter", stats);
+            check("trimmed", T::value_size_sum_exact_size_iter(trimmed()), sum_value(trimmed()), "value_size_sum_exact_size_iter", stats);
+        }
         // mapped: projection out of a tuple, and through a box
         let tagged: Vec<(T, u8)> = elems.into_iter().map(|e| (e, 7u8)).collect();
         check("map-field", T::heap_size_sum_iter(|| tagged.iter().map(|t| &t.0)), sum_heap(tagged.iter().map(|t| &t.0)), "heap_size_sum_iter", stats);
@@ -618,7 +811,7 @@ impl<T: Shape + 'static> Runner<T> {
         check("map-unbox", T::heap_size_sum_iter(|| boxed.iter().map(|b| &**b)), sum_heap(boxed.iter().map(|b| &**b)), "heap_size_sum_iter", stats);
         check("map-unbox", T::heap_size_sum_exact_size_iter(|| boxed.iter().map(|b| &**b)), sum_heap(boxed.iter().map(|b| &**b)), "heap_size_sum_exact_size_iter", stats);
         if T::LEVELS >= 2 && n >= 2 {
-            for a in ["identity", "rev", "skip-take", "step_by", "filter", "chain", "map-field", "map-unbox"] {
+            for a in ["identity", "rev", "skip-take", "step_by", "filter", "chain", "repeat_n", "cycle-take", "trimmed", "map-field", "map-unbox"] {
                 stats.nontrivial8.push(format!("{}|{}", name, a));
             }
         }
@@ -795,8 +988,27 @@ pub fn menu_send() -> Vec<Box<dyn ShapeRun + Send>> {
         Vec<(Range<String>, u8)>, Box<[Option<String>]>, Vec<Result<Box<str>, String>>, Vec<HashSet<u16>>,
         Vec<Vec<()>>, Vec<Vec<[u8; 0]>>, Box<[Vec<()>]>, (Vec<()>, Vec<()>), HashMap<u8, Vec<()>>, Vec<Box<[()]>>, [Vec<()>; 3],
         Vec<(Vec<()>, String)>, BinaryHeap<Vec<()>>, Vec<Vec<Vec<()>>>,
+        // further leaves (every one goes through the same macro in the crate) and unsized boxes
+        i8, u128, usize, f32, bool, f64, i128, std::time::Duration, std::num::NonZeroU8, std::cmp::Ordering,
+        Vec<u128>, Vec<(u8, u128)>, Vec<std::num::NonZeroU64>, Vec<std::net::Ipv4Addr>, Vec<std::net::IpAddr>,
+        Vec<std::net::SocketAddr>, Vec<bool>, Vec<f32>, Vec<usize>, Vec<std::cmp::Ordering>, Vec<char>,
+        Box<[std::time::Duration]>, [std::net::IpAddr; 3], (std::marker::PhantomPinned, String),
+        Vec<std::collections::hash_map::RandomState>, Option<std::num::NonZeroU8>, Vec<Option<std::num::NonZeroU64>>,
+        Box<std::ffi::OsStr>, Vec<Box<std::ffi::OsStr>>, (Box<std::ffi::OsStr>, Box<Path>, Box<CStr>), Option<Box<std::ffi::OsStr>>,
+        PhantomData<String>, Vec<PhantomData<String>>, (PhantomData<Vec<u8>>, String), Box<PhantomData<u64>>,
+        Vec<Box<i128>>, Vec<Box<(u8, String)>>, Vec<Box<[u8; 3]>>, Vec<Box<Option<String>>>, Vec<Box<Box<str>>>,
+        Box<Mutex<String>>, Vec<Box<Mutex<Vec<u8>>>>, Vec<Option<Box<str>>>, Vec<[Box<str>; 2]>, Vec<[Option<Box<[u8]>>; 3]>,
+        // user-defined element types inside the crate's containers
+        UMock, UHead, ULen, UPeek,
+        Vec<UMock>, HashSet<UMock>, HashMap<u8, UMock>, HashMap<UMock, UMock>, HashMap<UMock, String>, BinaryHeap<UMock>,
+        [UMock; 3], Vec<[UMock; 2]>, Option<UMock>, Box<UMock>, Vec<(UMock, String)>, Box<[UMock]>, HashSet<(UMock, u8)>, HashMap<u8, [UMock; 2]>,
+        Vec<UHead>, Vec<[UHead; 3]>, Box<[[UHead; 2]]>, [[UHead; 2]; 3], Vec<[UHead; 0]>, Vec<[[UHead; 2]; 2]>, HashMap<u8, [UHead; 2]>,
+        Vec<(UHead, ULen)>, Vec<Box<UHead>>, Vec<Wrapping<UHead>>, Vec<Option<UHead>>, BinaryHeap<UHead>, HashSet<UHead>,
+        Vec<ULen>, Vec<[ULen; 3]>, Box<[[ULen; 2]]>, [[ULen; 3]; 2], Vec<[ULen; 0]>, Vec<Box<[ULen; 2]>>, HashMap<ULen, [ULen; 2]>, Vec<[(ULen, UHead); 2]>,
+        Vec<UPeek>, Vec<[UPeek; 3]>, Box<[[UPeek; 2]]>, [[UPeek; 2]; 3], Vec<[UPeek; 1]>, Vec<Box<[UPeek]>>, Vec<(u8, [UPeek; 2])>, Vec<Range<UPeek>>,
         // references
         &'static String, Vec<&'static String>, (&'static Vec<u8>, String),
+        &'static mut String, Vec<&'static mut Vec<u8>>, (&'static mut String, Box<str>), Option<&'static mut String>,
     ];
     m.push(Box::new(UnsizedRunner));
     m.push(Box::new(LockedElsewhereRunner));
